@@ -44,6 +44,10 @@ pub struct W3Case {
     pub probes: Vec<String>,
     /// number of extra insertion orders of the final live set to rebuild and compare
     pub rebuild_orders: u32,
+    /// the patterns hold expressions with a large compiled program: every lookup of an uncached tree costs tens of
+    /// milliseconds, so the run does no (limit, level) grid and no rebuilds
+    #[serde(default)]
+    pub heavy: bool,
     pub order_seed: u64,
 }
 
@@ -143,6 +147,8 @@ pub fn compile_pattern(p: &PatSpec, ignore_case: bool) -> String {
 }
 
 fn gen_pattern(rng: &mut Rng, pool: &mut Vec<(PatSpec, Vec<String>, Vec<String>)>, heavy: bool) {
+    // at most one heavy expression per pattern and two heavy patterns per run
+    let mut heavy = heavy && pool.iter().filter(|(p, _, _)| p.markers.iter().any(|(_, r)| HEAVY_MARKERS.iter().any(|h| h.regex == r))).count() < 2;
     // template = literal (marker literal)*, sharing prefixes with earlier templates half of the time
     let mut template = String::new();
     let mut markers: Vec<(String, String)> = Vec::new();
@@ -178,7 +184,12 @@ fn gen_pattern(rng: &mut Rng, pool: &mut Vec<(PatSpec, Vec<String>, Vec<String>)
             m.push_str(&lit);
         }
         if rng.chance(3, 4) && markers.len() < 3 {
-            let mk = if heavy && rng.chance(3, 4) { &HEAVY_MARKERS[rng.below(HEAVY_MARKERS.len())] } else { &MARKERS[rng.below(MARKERS.len())] };
+            let mk = if heavy && rng.chance(3, 4) {
+                heavy = false;
+                &HEAVY_MARKERS[rng.below(HEAVY_MARKERS.len())]
+            } else {
+                &MARKERS[rng.below(MARKERS.len())]
+            };
             let name = format!("m{}{}", k, ["", "x", "xy"][rng.below(3)]);
             if markers.iter().any(|(n, _)| n.starts_with(&name) || name.starts_with(n.as_str())) {
                 continue;
@@ -281,9 +292,9 @@ impl World for W3 {
         probes.sort();
         probes.dedup();
         rng.shuffle(&mut probes);
-        probes.truncate(if heavy { 10 } else if tier == Tier::Quick { 14 } else { 24 });
+        probes.truncate(if heavy { 8 } else if tier == Tier::Quick { 14 } else { 24 });
 
-        let nops = if heavy { rng.range(2, 8) } else { rng.range(npat, (npat * 3).min(60)) };
+        let nops = if heavy { rng.range(2, 6) } else { rng.range(npat, (npat * 3).min(60)) };
         let mut ops = Vec::new();
         let mut live: Vec<(usize, String)> = Vec::new();
         let mut next_id = 0usize;
@@ -340,8 +351,9 @@ impl World for W3 {
             patterns: pool.into_iter().map(|(p, _, _)| p).collect(),
             ops,
             probes,
-            rebuild_orders: 3,
+            rebuild_orders: if heavy { 0 } else { 3 },
             order_seed: rng.next_u64(),
+            heavy,
         }
     }
 
@@ -803,7 +815,7 @@ fn exec(case: &W3Case, ctx: &mut Ctx) {
     }
     // C12: exhaustive over (limit, level) for small trees — every pair of a grid is applied to a fresh clone of the
     // never-cached twin and compared with it
-    if check_twin && model.entries.len() <= 8 && !model.entries.is_empty() && case.order_seed % (if ctx.tier == Tier::Quick { 12 } else { 3 }) == 0 {
+    if check_twin && !case.heavy && model.entries.len() <= 8 && !model.entries.is_empty() && case.order_seed % (if ctx.tier == Tier::Quick { 12 } else { 3 }) == 0 {
         let res = guard(ctx, "cache(limit, level) grid on clones", || {
             let mut n = 0u64;
             for limit in 0..=6u64 {
